@@ -245,7 +245,7 @@ func ruleStatusTable(w *World, r *Run, a *updAnalysis, rule string) {
 			var pc *Event
 			for _, pe := range calls(s, cParse) {
 				pe := pe
-				if len(pe.Args) == 4 && pe.Args[0] == res(*upd, 0) && pe.Args[1] == origin && pe.Args[2] == mk("field", "witVerifier", 0, nil, recv) && okBefore(s, pe, 0) {
+				if len(pe.Args) == 4 && pe.Args[0] == res(*upd, 0) && pe.Args[1] == origin && pe.Args[2] == fieldByType(recv, "note.Verifier") && okBefore(s, pe, 0) {
 					pc = &pe
 				}
 			}
@@ -270,7 +270,7 @@ func ruleStatusTable(w *World, r *Run, a *updAnalysis, rule string) {
 	}
 	// Update is called with handleUpdate's own parameters, unmodified
 	wantArgs := []*Term{paramN(fn, 0), paramN(fn, 1), paramN(fn, 3), paramN(fn, 4), paramN(fn, 5)}
-	good := len(upd.Args) == 5 && upd.Recv == mk("field", "w", 0, nil, recv)
+	good := len(upd.Args) == 5 && upd.Recv == fieldByType(recv, "feeder.Witness")
 	if good {
 		for i := range wantArgs {
 			if upd.Args[i] != wantArgs[i] {
@@ -353,7 +353,7 @@ func ruleServeHTTP(w *World, r *Run, ruleB, ruleC, ruleE string) {
 	recv := recvParam(fn)
 	rw := paramN(fn, 0)
 	req := paramN(fn, 1)
-	limiter := mk("field", "limiter", 0, nil, recv)
+	limiter := fieldByType(recv, "*rate.Limiter")
 	allowed := map[string]bool{"200": true, "400": true, "403": true, "404": true, "409": true, "422": true, "429": true, "500": true}
 	// statuses handleUpdate can hand over with a nil error
 	huStatuses := map[string]bool{}
@@ -483,7 +483,7 @@ func ruleServeHTTP(w *World, r *Run, ruleB, ruleC, ruleE string) {
 			// a pre-check refused: which one?
 			nPre++
 			lk := eventsOfKind(s, "mapread")
-			if len(lk) == 1 && lk[0].Recv == mk("field", "logs", 0, nil, recv) {
+			if len(lk) == 1 && lk[0].Recv == fieldByType(recv, "map[string]config.Log") {
 				k, found, _ := boolFact(s, mk("lookup", "ok", 0, nil, lk[0].Recv, lk[0].Args[0]))
 				r.Check(k && !found && status == "404", ruleE, fnServeHTTP+" | unknown origin answered 404", w.pos(s.RetPos), "an origin that is not configured is answered "+status)
 			} else {
